@@ -38,6 +38,18 @@ func (w *World) findIterCopy(rel string) *iterCopy {
 			continue
 		}
 		nt, _ := tn.Type().(*types.Named)
+		// (an iterator: it has a Next method; other pairs of ints -- a span of indexes -- are not the counter)
+		hasNext := false
+		if nt != nil {
+			for i := 0; i < nt.NumMethods(); i++ {
+				if nt.Method(i).Name() == "Next" {
+					hasNext = true
+				}
+			}
+		}
+		if !hasNext {
+			continue
+		}
 		if isBasicKind(st.Field(0).Type(), types.Int) && isBasicKind(st.Field(1).Type(), types.Int) && !isNamed(st.Field(0).Type()) {
 			ic.rangerT = nt
 		} else {
